@@ -244,7 +244,8 @@ def parse_ig(filepath):
         clean_line, comment = split_comments(line)
         comments.append(comment)
         if clean_line:
-            if clean_line[-1] == '1' or clean_line[-1] == '2':
+            # the first line is the title; only sequence lines can end the sequence
+            if clean_lines and (clean_line[-1] == '1' or clean_line[-1] == '2'):
                 ter_char = clean_line[-1]
                 clean_line = clean_line[:-1]
                 clean_lines.append(clean_line)
